@@ -13,7 +13,7 @@ FORMULAS = ["center(a)", "scale(a) + A", "a:A + b", "poly(a, 2) + B", "b + C(A, 
             # ... next to a genuine column that looks like its sanitised alias
             "scale(`x 1`) + center(x_1) + {`x 1` * x_1}"]
 Z_NULLS_D2 = [1, 3]  # data set 2 carries NaN in the concrete column z at these rows; data set 1 is complete
-OPS = ["M1", "M2", "S1", "S2", "U1", "U2", "F1", "F2"]
+OPS = ["M1", "M2", "S1", "S2", "U1", "U2", "F1", "F2", "R1", "R2"]  # R: one materializer object per data set, re-used by every R call of the history
 OPS3 = ["M3", "U3", "F3"]  # data set 3: the kinds of a and A are swapped (a categorical, A numeric)
 KIND_SWAP_FORMULAS = ["a + A", "a:A + b", "A + a:b"]
 
@@ -55,7 +55,9 @@ def run_history(formula, history, data, same, make_ctx, lost_rows=None):
     Returns (problems, claims).
     """
     from formulaic import Formula, ModelSpec, model_matrix
+    from formulaic.materializers import FormulaMaterializer
 
+    mats: dict = {}
     problems, claims = [], []
     F = Formula(formula)
     U = ModelSpec(formula=formula)
@@ -77,6 +79,8 @@ def run_history(formula, history, data, same, make_ctx, lost_rows=None):
             d1, n1 = data[1]
             s = model_matrix(Formula(formula), d1, context=make_ctx(n1)).model_spec
             return s.get_model_matrix(df, context=ctx)
+        if op[0] == "R":
+            return FormulaMaterializer.for_data(df)(df, context=ctx).get_model_matrix(Formula(formula))
 
     for step, op in enumerate(history):
         df, num = data[int(op[1])]
@@ -91,6 +95,10 @@ def run_history(formula, history, data, same, make_ctx, lost_rows=None):
             got = F.get_model_matrix(df, context=ctx)
         elif op[0] == "U":
             got = U.get_model_matrix(df, context=ctx)
+        elif op[0] == "R":
+            if op not in mats:
+                mats[op] = FormulaMaterializer.for_data(df)(df, context=ctx)
+            got = mats[op].get_model_matrix(F)
         else:
             got = S.get_model_matrix(df, context=ctx)
         ref = fresh(op)
